@@ -17,13 +17,17 @@ ASSUME = [
 ]
 
 
-def run_expr_prop(prop, tier, seed, verdict, variants=("asan20d",), faults=False, extra_rule=""):
+def run_expr_prop(prop, tier, seed, verdict, variants=("asan20d",), faults=False, extra_rule="", fault_ops=None, fault_scenarios=12):
     n, per, depth, leaves, budget = TIERS[tier]
     cov_total = None
     for vi, variant in enumerate(variants):
         run = expr_check.ExprRun(seed, n, per, depth, leaves, variant, budget, name="expr")
         run.build()
-        run.execute({prop: verdict}, None, faults=faults)
+        fp = None
+        if fault_ops:
+            from .. import gen_expr
+            fp = set(p[0] for p in run.progs if gen_expr.has_op(p[1], fault_ops))
+        run.execute({prop: verdict}, None, faults=faults, fault_programs=fp, fault_scenarios=fault_scenarios)
         cov = run.coverage()
         cov["build_variants"] = list(variants)
         if cov_total is None:
@@ -44,7 +48,7 @@ def run_expr_prop(prop, tier, seed, verdict, variants=("asan20d",), faults=False
         "program). evaluations = scenario executions; distinct_nontrivial = distinct (program, observed "
         "order of driver/stop/leaf-completion events) among scenarios with >=1 deferred leaf, failure, "
         "stop or injected throw. %s" % (depth, leaves, budget, extra_rule))
-    if cov_total["evaluations"] and cov_total["inconclusive"] > 0.05 * cov_total["evaluations"]:
+    if cov_total["evaluations"] and cov_total["inconclusive"] > 0.05 * cov_total["evaluations"] and not verdict.has_new():
         raise core.HarnessFailure("too many inconclusive scenarios: %d of %d" %
                                   (cov_total["inconclusive"], cov_total["evaluations"]))
     return cov_total, list(ASSUME)
